@@ -37,6 +37,7 @@ type world struct {
 	modAll    map[*ssa.Function]bool
 	specReads     map[string][]string
 	recFuncs map[*ssa.Function]bool
+	takenFuncs map[*ssa.Function]bool // functions used as values (funcvals.go)
 	sccID map[*ssa.Function]int
 	globals map[string]int
 	constGlobals map[*ssa.Global]*ssa.Const // package-level variables that are initialised with a constant and never written again
